@@ -66,10 +66,13 @@ func (e *Embed) GenerateOutput(textOnly bool) string {
 	// distiller usually only used in page that we already visit, the embedded iframe
 	// should automatically be trustworthy enough.
 	// TODO: Maybe just to be save we should sanitize it.
+	// The element is put into the placeholder as a processed clone, like tables and
+	// captions: no scripts, styles or hidden descendants, and only safe attributes.
 	tagName := dom.TagName(e.Element)
 	if tagName == "blockquote" || tagName == "iframe" {
-		domutil.StripAttributes(e.Element)
-		dom.AppendChild(embed, e.Element)
+		if cloned := domutil.CloneAndProcessTree(e.Element, nil); cloned != nil {
+			dom.AppendChild(embed, cloned)
+		}
 	}
 
 	return dom.OuterHTML(embed)
